@@ -11,6 +11,7 @@ The engine keeps states of different paths apart (trace partitioning) up to MAX_
 block, after which states are joined (union per key, key dropped if absent on one side).
 Nothing is executed: this is an abstract interpretation of the CFG with a finite domain.
 """
+import re
 from collections import defaultdict
 from facts import op_local, op_place, proj_str, variant_map
 
@@ -121,6 +122,21 @@ def ref_aliases(body):
     return alias
 
 
+ASCII_SETS = {
+    "is_ascii_digit": ((48, 57),),
+    "is_ascii_lowercase": ((97, 122),),
+    "is_ascii_uppercase": ((65, 90),),
+    "is_ascii_alphabetic": ((65, 90), (97, 122)),
+    "is_ascii_alphanumeric": ((48, 57), (65, 90), (97, 122)),
+    "is_ascii_hexdigit": ((48, 57), (65, 70), (97, 102)),
+    "is_ascii_whitespace": ((9, 10), (12, 13), (32, 32)),
+    "is_ascii_punctuation": ((33, 47), (58, 64), (91, 96), (123, 126)),
+    "is_ascii_graphic": ((33, 126),),
+    "is_ascii_control": ((0, 31), (127, 127)),
+    "is_ascii": ((0, 127),),
+}
+
+
 class VarFlow:
     def __init__(self, facts, body, extra_locals=()):
         self.facts = facts
@@ -216,6 +232,27 @@ class VarFlow:
                 out[s["d"]["l"]] = (rv["op"], root(op_local(a)), cb)
             elif cb is None and ca is not None and op_local(b) is not None and not op_place(b).get("p"):
                 out[s["d"]["l"]] = (flip[rv["op"]], root(op_local(b)), ca)
+        # well-known library predicates over one char / byte: `b = c.is_ascii_digit()` is a membership test in a fixed set
+        for bi, t in self.body.iter_terms("call"):
+            m = re.search(r"(?:char::methods::<impl char>|core::num::<impl u8>|ascii::ascii_char::AsciiChar)::(is_ascii_\w+)$", self.body.callee(t))
+            if not m or m.group(1) not in ASCII_SETS or not t["args"] or t["dest"].get("p"):
+                continue
+            l = op_local(t["args"][0])
+            if l is None or op_place(t["args"][0]).get("p"):
+                continue
+            # by-reference receiver: `_r = &_c`
+            for _ in range(4):
+                ds = self.defs.get(l, [])
+                if len(ds) != 1 or ds[0][0] != "stmt" or ds[0][3]["d"].get("p"):
+                    break
+                r2 = ds[0][3]["rv"]
+                if r2["k"] == "ref" and not r2["p"].get("p"):
+                    l = r2["p"]["l"]
+                elif r2["k"] == "use" and op_place(r2["op"]) is not None and not op_place(r2["op"]).get("p"):
+                    l = op_place(r2["op"])["l"]
+                else:
+                    break
+            out[t["dest"]["l"]] = ("In", l, ASCII_SETS[m.group(1)])
         return out
 
     FULL = ((-(1 << 63), (1 << 64)),)
@@ -248,6 +285,17 @@ class VarFlow:
         cur = st.get(key)
         ivs = tuple(sorted(cur)) if cur is not None else self.FULL
         lo, hi = self.FULL[0]
+        if op == "In":
+            if outcome:
+                new = ()
+                for a_, b_ in c:
+                    new += self.iv_intersect(ivs, a_, b_)
+                new = tuple(sorted(new))
+            else:
+                new = ivs
+                for a_, b_ in c:
+                    new = self.iv_subtract(new, a_, b_)
+            return key, new
         if not outcome:
             op = {"Lt": "Ge", "Le": "Gt", "Gt": "Le", "Ge": "Lt", "Eq": "Ne", "Ne": "Eq"}[op]
         if op == "Lt":
